@@ -18,8 +18,17 @@ CHECK = dict(
                    "hostile registry, and compares a full recursive listing (type, size, mtime, content hash, link count) before and after each "
                    "operation: every difference must lie under the designated directory, no link or special file may appear anywhere, and no read "
                    "may return or copy the bytes of a secret file. Exploration, not proof.",
-        level_note="Trusted: the listing oracle (self-tested by the sanity job), archive/tar as reader. Not covered: Windows path semantics, "
-                   "output directories that already contain user-placed links, races with concurrent writers, registry *push* paths.",
+        level_note="Trusted: the listing oracle (self-tested by the sanity job), archive/tar as reader. Dimensions varied besides the hostile-string "
+                   "grammar: spelling of the designated directory (absolute, trailing slash, relative, ./relative), context state (live / already "
+                   "cancelled), digest algorithm of the content (sha256 / sha512), manifest kinds (OCI image / index / artifactType, docker v2 / list, "
+                   "docker schema 1, OCI artifact manifest), inline descriptor data, referrers responses (fallback tag and referrers API) incl. "
+                   "regctl artifact get --subject, hostile Docker-Content-Digest headers, BlobPut reader kinds (bytes / blob.Reader / plain) and "
+                   "descriptor sizes, ImageCopy/Export options (referrers, digest tags, force, platforms, child, fast check, callback, compress), "
+                   "tar compression (none / gzip / zstd), PAX global headers, ustar prefix splits, payload sizes around 512 and 32 KiB, archive "
+                   "member order, empty layout directories. Not covered: Windows path semantics, output directories that already contain "
+                   "user-placed links, races with concurrent writers or a context cancelled *during* an operation, registry push paths, "
+                   "bzip2/xz compressed archives (decompress-only in the repo, same tar path afterwards), --external / ImageWithReferrerSrc/Tgt "
+                   "repositories, foreign-layer URLs (ImageWithIncludeExternal needs a second host).",
         assumptions=["the designated directory of a layout operation is ref.Path; of archive.Extract its path argument; of artifact get the --output value",
                      "an operation that fails (error or panic) is acceptable; only file-system effects and returned bytes are judged",
                      "changes inside a source layout's own directory during a copy are legitimate (a layout may write inside its own directory)"],
